@@ -24,12 +24,17 @@
 //  E5 DTX off: no packet of <= 2 bytes at all.
 // Decoder clauses (tree decoder, both feeding modes):
 //  D1 every call returns the frame duration.
-//  D2 near-silence: inside a gap, from 40 ms after t0 to its end, the loudest
-//     10 ms window stays below the calibrated bound (calib/C20.json).
-//  D3 recovery: for a burst of >= 300 ms after a gap, (decoded power of that
-//     burst / decoded power of the first burst) / (same ratio of the input)
-//     lies within the calibrated band (first burst >= 400 ms, first 100 ms of
-//     either burst skipped; the active signal is one stationary family).
+//  D2 near-silence (ample buffer, bitrate AUTO or >= 12 kb/s per channel: below that the speech layer starves,
+//     bursts decode to nothing and refresh packets to comfort noise of rms 0.05..1.0, see
+//     replays/C20/observation-starved-rate-comfort-noise-in-silence.case): in a gap that opens with >= 60 ms of
+//     regular packets (the decoder was told about the silence) and then goes into DTX, from 20 ms after the start of the first DTX packet to the end of the
+//     gap the loudest 10 ms window stays below the calibrated bound (calib/C20.json).
+//  D3 recovery: for a burst of >= 300 ms after a gap, (decoded power of that burst / decoded power of the
+//     first burst) / (same ratio of the input) lies within the calibrated band.  Domain: first burst
+//     >= 400 ms, the first 100 ms of either burst skipped, no DTX packet inside either burst (the encoder
+//     judged them active; stationary tones are legitimately replaced by comfort noise), ample buffer and a
+//     bitrate AUTO or 12..64 kb/s per channel (below, the speech layer can starve and emit empty frames; far above,
+//     the SILK layer was seen to saturate the decoded signal, observation C20F2, which voids a power comparison).
 // Calibration mode: C20_CALIB_OUT=<file> appends one JSON line per case and
 // skips D2/D3 (tools/c20_calibrate.py aggregates into calib/C20.json).
 #include "c05_common.hpp"
@@ -102,6 +107,10 @@ int vp_case(Choice& c, Report& rep) {
     else if (k == 3) bitrate = c.irange(64000, 256000);
     else if (k == 4) bitrate = c.irange(3000, 8000);
     else bitrate = c.irange(12000, 48000) * ch;
+    // Observation C20F2 (C04 territory): SILK-only CBR at >= 150 kb/s can drive the decoded signal into saturation
+    // (rms 0.99 for an input of 0.2; replays/C20/observation-silk-cbr-high-rate-saturates.cpp), which would void
+    // the decoder clauses; CBR rates are kept at <= 80 kb/s per channel whenever the SILK layer can be chosen.
+    if (bitrate != OPUS_AUTO && vbrmode == 1 && silk_possible && bitrate > 80000 * ch && rep.exclude("C20F2")) bitrate = 80000 * ch;
     if (bitrate != OPUS_AUTO) {
       while (low_budget(bitrate)) bitrate += 100;
       if (at_floor) bitrate += c.irange(0, 3) * 100;
@@ -205,6 +214,16 @@ int vp_case(Choice& c, Report& rep) {
   }
   if (!all_finite(outA.data(), outA.size()) || !all_finite(outB.data(), outB.size())) return rep.fail("c20:decode-nonfinite", "decoded audio not finite");
 
+  if (getenv("C20_DUMP")) {   // debugging aid: per-packet length, IN_DTX, input / decoded rms
+    for (int i = 0; i < nframes; i++) {
+      double a = 0, b = 0;
+      for (int k = 0; k < fs * ch; k++) { a += (double)pcm[(size_t)i * fs * ch + k] * pcm[(size_t)i * fs * ch + k]; b += (double)outA[(size_t)i * fs * ch + k] * outA[(size_t)i * fs * ch + k]; }
+      fprintf(stderr, "packet %3d t=%5d ms len %4d in_dtx %d  in rms %.4f  out rms %.4f", i, (int)((int64_t)i * fs * 1000 / Fs), plen[i], pdtx[i], std::sqrt(a / (fs * ch)), std::sqrt(b / (fs * ch)));
+      if (a == 0 && b / (fs * ch) > 1e-4) { fprintf(stderr, "  per 5 ms:"); int w = Fs / 200; for (int s0 = 0; s0 + w <= fs; s0 += w) { double e = 0; for (int k = s0 * ch; k < (s0 + w) * ch; k++) e += (double)outA[(size_t)i * fs * ch + k] * outA[(size_t)i * fs * ch + k]; fprintf(stderr, " %.3f", std::sqrt(e / (w * ch))); } }
+      fprintf(stderr, "\n");
+    }
+  }
+
   // ---- encoder clauses -------------------------------------------------------
   const char* cfgfmt = "Fs=%d ch=%d app=%d cx=%d %gms bitrate=%d vbrmode=%d M=%d fmode=%d schedule(ms)=%s";
 #define CFG cfgfmt, Fs, ch, app, complexity, cu::DUR400[dur] * 2.5, bitrate, vbrmode, M, force_mode, sched.c_str()
@@ -278,13 +297,27 @@ int vp_case(Choice& c, Report& rep) {
   double rec_lo[2] = {1e30, 1e30}, rec_hi[2] = {0, 0}; bool rec_seen = false;
   const std::vector<float>* outs[2] = {&outA, &outB};
   const size_t skip = (size_t)Fs / 10;
+  auto any_dtx = [&](int a, int b) { for (int i = a; i < b; i++) if (plen[i] <= 2) return true; return false; };
+  const bool sane_rate = M >= 1276 && (bitrate == OPUS_AUTO || bitrate >= 12000 * ch);
   for (size_t k = 0; k < segs.size(); k++) {
-    const size_t s0 = (size_t)seg_start[k] * fs, s1 = (size_t)seg_start[k + 1] * fs;
-    if (!segs[k].active && s1 - s0 >= (size_t)Fs / 10) {
-      gap_seen = true;
-      for (int d = 0; d < 2; d++) { double r = win_max_rms(*outs[d], s0 + (size_t)Fs / 25, s1); if (r > gap_worst[d]) { gap_worst[d] = r; if (d == 0) { gap_worst_ms = (int)((worst_at - s0) * 1000 / Fs); gap_worst_prev_dtx = seg_start[k] > 0 && plen[seg_start[k] - 1] <= 2; } } }
+    const int fa = seg_start[k], fb = seg_start[k + 1];
+    const size_t s0 = (size_t)fa * fs, s1 = (size_t)fb * fs;
+    if (!segs[k].active && fb > fa) {
+      // D2: the decoder was told about the silence (>= 60 ms of regular packets open the gap) and DTX follows;
+      // the window runs from 20 ms after the start of the first DTX packet to the end of the gap
+      int first = -1;
+      for (int i = fa; i < fb; i++) if (plen[i] <= 2) { first = i; break; }
+      if (sane_rate && first >= 0 && (int64_t)(first - fa) * fs * 1000 >= 60ll * Fs) {
+        size_t w0 = (size_t)first * fs + (size_t)Fs / 50;
+        if (w0 + (size_t)Fs / 100 <= s1) {
+          gap_seen = true;
+          for (int d = 0; d < 2; d++) { double r = win_max_rms(*outs[d], w0, s1); if (r > gap_worst[d]) { gap_worst[d] = r; if (d == 0) { gap_worst_ms = (int)((worst_at - s0) * 1000 / Fs); gap_worst_prev_dtx = fa > 0 && plen[fa - 1] <= 2; } } }
+        }
+      }
     }
-    if (segs[k].active && k >= 2 && s1 - s0 >= 3 * (size_t)Fs / 10 && (size_t)segs[0].frames * fs >= 2 * (size_t)Fs / 5 && segs[k - 1].frames > 0) {
+    // D3: both bursts long enough, coded throughout (no DTX packet inside them: the encoder judged them active), sane rate
+    if (segs[k].active && k >= 2 && sane_rate && (bitrate == OPUS_AUTO || bitrate <= 64000 * ch) && s1 - s0 >= 3 * (size_t)Fs / 10 && (size_t)segs[0].frames * fs >= 2 * (size_t)Fs / 5 && segs[k - 1].frames > 0
+        && !any_dtx(0, seg_start[1]) && !any_dtx(fa, fb)) {
       const size_t b0 = 0, b1 = (size_t)segs[0].frames * fs;
       double pin1 = power(pcm, b0 + skip, b1), pin2 = power(pcm, s0 + skip, s1);
       for (int d = 0; d < 2; d++) {
